@@ -125,6 +125,17 @@ pub fn digest_bytes(b: &[u8]) -> u64 {
     u64::from_le_bytes(blake3::hash(b).as_bytes()[..8].try_into().unwrap())
 }
 
+/// Rendering of an entry value; arrays above 1 KiB are rendered as length and digest (images
+/// with a value store above 16 MiB would otherwise produce dumps of hundreds of megabytes).
+pub fn render_value(v: &jbk::Value) -> String {
+    match v {
+        jbk::Value::Array(a) if a.len() > 1024 => {
+            format!("Array(long[{}]#{:016x})", a.len(), digest_bytes(a))
+        }
+        _ => format!("{v:?}"),
+    }
+}
+
 pub fn pack_info_string(i: &jbk::reader::PackInfo) -> String {
     pack_info_str(i)
 }
@@ -345,7 +356,7 @@ pub fn dump_opened(container: &jbk::reader::Container, spec: &DumpSpec, out: &mu
                     Ok(None) => out.push(pbase, Leaf::Absent),
                     Ok(Some(raw)) => match raw.get() {
                         Err(e) => out.push(pbase, Leaf::Err(err_class(&e))),
-                        Ok(v) => out.push(pbase, Leaf::Val(format!("{v:?}"))),
+                        Ok(v) => out.push(pbase, Leaf::Val(render_value(&v))),
                     },
                 }
             }
@@ -475,7 +486,7 @@ pub fn check_against_model(d: &Dump, m: &crate::gen::Model, contents_readable: b
             let c = &m.contents[e.content];
             expect(
                 format!("{base}/key"),
-                Leaf::Val(format!("{:?}", jbk::Value::Array(e.key.as_slice().into()))),
+                Leaf::Val(render_value(&jbk::Value::Array(e.key.as_slice().into()))),
             );
             expect(
                 format!("{base}/addr"),
